@@ -17,7 +17,19 @@ func H6(b []byte) string {
 	return hex.EncodeToString(b)
 }
 
-func KeyID(pk *relayertypes.PublicKey) string { return hex.EncodeToString(relayertypes.EncodePublicKey(pk)[:5]) }
+// BigVal stands for "some 64-bit value above the model's integers" (parameters may legitimately hold such values).
+const BigVal = 2_000_000_000
+
+func Clamp(u uint64) int64 {
+	if u > BigVal {
+		return BigVal
+	}
+	return int64(u)
+}
+
+func KeyID(pk *relayertypes.PublicKey) string {
+	return hex.EncodeToString(relayertypes.EncodePublicKey(pk)[:5])
+}
 
 type BWd struct {
 	ID         int64  `json:"id"`
@@ -55,20 +67,20 @@ type BPaid struct {
 }
 
 type BridgeState struct {
-	Tip       int64       `json:"tip"`
-	Hashes    []string    `json:"hashes"` // heights Base..Tip
-	Base      int64       `json:"base"`
-	Pubkeys   []string    `json:"pubkeys"`
-	CurKey    string      `json:"curKey"`
-	Deposited [][2]string `json:"deposited"`
-	Wd        []BWd       `json:"wd"`
-	Proc      []BProc     `json:"proc"`
-	NextPid   int64       `json:"nextPid"`
-	Cursor    int64       `json:"cursor"`
-	QDeposits []BDeposit  `json:"qDeposits"`
-	QPaid     []BPaid     `json:"qPaid"`
-	QRejected []int64     `json:"qRejected"`
-	Nonce     int64       `json:"nonce"`
+	Tip       int64           `json:"tip"`
+	Hashes    []string        `json:"hashes"` // heights Base..Tip
+	Base      int64           `json:"base"`
+	Pubkeys   []string        `json:"pubkeys"`
+	CurKey    string          `json:"curKey"`
+	Deposited [][]interface{} `json:"deposited"`
+	Wd        []BWd           `json:"wd"`
+	Proc      []BProc         `json:"proc"`
+	NextPid   int64           `json:"nextPid"`
+	Cursor    int64           `json:"cursor"`
+	QDeposits []BDeposit      `json:"qDeposits"`
+	QPaid     []BPaid         `json:"qPaid"`
+	QRejected []int64         `json:"qRejected"`
+	Nonce     int64           `json:"nonce"`
 	Params    struct {
 		MinDeposit int64  `json:"minDeposit"`
 		TaxRate    int64  `json:"taxRate"`
@@ -125,17 +137,14 @@ func Bridge(c *sim.Chain, addrID func(string) string) (*BridgeState, error) {
 	if pk, err := k.Pubkey.Get(ctx); err == nil {
 		st.CurKey = KeyID(&pk)
 	}
-	st.Deposited = [][2]string{}
+	st.Deposited = [][]interface{}{}
 	err = k.Deposited.Walk(ctx, nil, func(key collections.Pair[[]byte, uint32], _ uint64) (bool, error) {
-		st.Deposited = append(st.Deposited, [2]string{H6(key.K1()), string(rune('0' + key.K2()%10))})
+		st.Deposited = append(st.Deposited, []interface{}{H6(key.K1()), int64(key.K2())})
 		return false, nil
 	})
 	if err != nil {
 		return nil, err
 	}
-	sort.Slice(st.Deposited, func(a, b int) bool {
-		return st.Deposited[a][0]+st.Deposited[a][1] < st.Deposited[b][0]+st.Deposited[b][1]
-	})
 	st.Wd = []BWd{}
 	err = k.Withdrawals.Walk(ctx, nil, func(id uint64, w bitcointypes.Withdrawal) (bool, error) {
 		bw := BWd{ID: st.sm(id), Status: wdStatus[w.Status], Addr: addrID(w.Address), Amount: st.sm(w.RequestAmount), MaxPrice: st.sm(w.MaxTxPrice)}
@@ -203,6 +212,6 @@ func Bridge(c *sim.Chain, addrID func(string) string) (*BridgeState, error) {
 	if err != nil {
 		return nil, err
 	}
-	st.Params.MinDeposit, st.Params.TaxRate, st.Params.MaxTax, st.Params.Conf, st.Params.Network = st.sm(p.MinDepositAmount), st.sm(p.DepositTaxRate), st.sm(p.MaxDepositTax), st.sm(p.ConfirmationNumber), p.NetworkName
+	st.Params.MinDeposit, st.Params.TaxRate, st.Params.MaxTax, st.Params.Conf, st.Params.Network = Clamp(p.MinDepositAmount), Clamp(p.DepositTaxRate), Clamp(p.MaxDepositTax), Clamp(p.ConfirmationNumber), p.NetworkName
 	return st, nil
 }
